@@ -19,6 +19,7 @@ import (
 	"os"
 	"os/exec"
 	"sort"
+	"strconv"
 	"strings"
 	"time"
 
@@ -502,7 +503,10 @@ func genItemOfKind(t *Tape, kind int) Item {
 		}
 	}
 	it.Inputs = []ProgInput{{Name: "in.json", Data: QBytes(doc())}}
-	switch t.Weighted(12, 1, 1, 1) {
+	switch t.Weighted(12, 1, 1, 1, 1) {
+	case 4:
+		// a number no float64 holds, with more lines behind it: the same error, worded the same, however the bytes arrive
+		it.Inputs[0].Data = append(it.Inputs[0].Data, []byte("\n[1,\n 2]\n1e999\n{\"a\": 1}\n[2,\n3]\n\n[4]\n")...)
 	case 1:
 		// a byte order mark in front: an error, however the bytes arrive
 		it.Inputs[0].Data = append(QBytes("\xef\xbb\xbf"), it.Inputs[0].Data...)
@@ -530,6 +534,25 @@ func genItemOfKind(t *Tape, kind int) Item {
 			{"$", "[printf(\"second selector\\n\"), $][1]"},
 		}[t.Draw(3)]
 		it.Prog = "BEGINFILE { print \"bf\" }\n{ print \"item\", $ is object }\nENDFILE { print \"ef\" }"
+		if t.Chance(1, 3) {
+			// a large document (thousands of values) under two selectors with effects
+			var sb strings.Builder
+			sb.WriteString("{\"xs\": [")
+			for i := 0; i < 2600+t.Draw(2000); i++ {
+				if i > 0 {
+					sb.WriteString(",")
+				}
+				sb.WriteString(strconv.Itoa(i))
+			}
+			sb.WriteString("], \"ys\": [1, 2, 3]}")
+			it.Inputs = []ProgInput{{Name: "in.json", Data: QBytes(sb.String())}}
+			it.Selectors = [][]string{
+				{"match ($.ys) { sv => { print \"selector one\", sv } }", "match ($.ys) { sw => { print \"selector two\", sw } }"},
+				{"[printf(\"first %s\\n\", $.ys.length()), $.ys][1]", "[printf(\"second %s\\n\", $.ys.length()), $.ys][1]", "$.ys"},
+				{"match (1) { 1 => { print \"one, then stop\"\n exit } }", "match (1) { 1 => { print \"two must not run\" } }"},
+			}[t.Draw(3)]
+			it.Prog = "{ n++ }\nEND { print \"done\", n }"
+		}
 	case 13:
 		// regular expressions: literal and string forms, patterns that share
 		// prefixes and lengths (a process-level cache keyed too coarsely shows here)
